@@ -27,7 +27,7 @@ func isAddSyntaxError(i ssa.Instruction) bool {
 	if !ok {
 		return false
 	}
-	f := c.Common().StaticCallee()
+	f := calleeOf(c) // static callee, closure or function variable
 	return f != nil && (f.Name() == "AddSyntaxError" || diagWrappers()[f])
 }
 
@@ -233,6 +233,10 @@ func keyPath(v ssa.Value) string {
 
 func sameKey(a, b ssa.Value) bool {
 	if stripIdentity(a) == stripIdentity(b) {
+		return true
+	}
+	// two loads of one variable cell that is written once (a parameter or local captured by a closure lives in such a cell)
+	if ca, cb := singleAssignCell(a), singleAssignCell(b); ca != nil && ca == cb {
 		return true
 	}
 	ka, kb := keyPath(a), keyPath(b)
@@ -1667,24 +1671,26 @@ func c12Options(w *World, r *Report) {
 				}
 			})
 		}
-		forEachInstr(nc, func(b *ssa.BasicBlock, ins ssa.Instruction) {
-			switch x := ins.(type) {
-			case *ssa.Lookup:
-				if s, ok := constString(x.Index); ok {
-					consumed[s] = true
-				}
-			case ssa.CallInstruction:
-				if g := x.Common().StaticCallee(); g != nil && g.Pkg == w.Model {
-					for j := range lookupParams(g, 0) {
-						if j < len(x.Common().Args) {
-							if s, ok := constString(x.Common().Args[j]); ok {
-								consumed[s] = true
+		for _, cf := range work {
+			forEachInstr(cf, func(b *ssa.BasicBlock, ins ssa.Instruction) {
+				switch x := ins.(type) {
+				case *ssa.Lookup:
+					if s, ok := constString(x.Index); ok {
+						consumed[s] = true
+					}
+				case ssa.CallInstruction:
+					if g := x.Common().StaticCallee(); g != nil && g.Pkg == w.Model {
+						for j := range lookupParams(g, 0) {
+							if j < len(x.Common().Args) {
+								if s, ok := constString(x.Common().Args[j]); ok {
+									consumed[s] = true
+								}
 							}
 						}
 					}
 				}
-			}
-		})
+			})
+		}
 	}
 	for _, c := range consts {
 		_, inTable := table[c]
@@ -1905,4 +1911,26 @@ func placementKindsOfHelper(w *World, ins ssa.Instruction) []string {
 		}
 	}
 	return out
+}
+
+// singleAssignCell: v is a load of a local variable cell that is stored to exactly once.
+func singleAssignCell(v ssa.Value) *ssa.Alloc {
+	ld, ok := stripIdentity(v).(*ssa.UnOp)
+	if !ok || ld.Op != token.MUL {
+		return nil
+	}
+	al, ok := ld.X.(*ssa.Alloc)
+	if !ok || al.Referrers() == nil {
+		return nil
+	}
+	n := 0
+	for _, ref := range *al.Referrers() {
+		if st, ok := ref.(*ssa.Store); ok && st.Addr == ssa.Value(al) {
+			n++
+		}
+	}
+	if n != 1 {
+		return nil
+	}
+	return al
 }
